@@ -25,6 +25,13 @@
 (*                      error state, never in an uncontrolled one          *)
 (*   CallFlagClearedAtCloser (C14) after the closing ")" of a call macro   *)
 (*                      has been seen at top level the call flag is off    *)
+(*   WithCaptureIsBlock (C07) a MACRO_PARAM delivered by with-macro capture *)
+(*                      holds a contiguous range of source lines, ending   *)
+(*                      right before the line of the DEDENT that closed    *)
+(*                      the block, or on the line of the NEWLINE that      *)
+(*                      closed the one-line form                           *)
+(*   WithFlagClearedAtDedent (C14) a block capture that met its DEDENT     *)
+(*                      leaves the with flag off                           *)
 (* The same module is the reference for model-based testing of the real    *)
 (* class: harness/props/c07.py replays TLC-generated call sequences into   *)
 (* a real Tokenizer fed with a synthetic generator and compares            *)
@@ -33,7 +40,8 @@
 (***************************************************************************)
 EXTENDS Naturals, Sequences, TLC, Json, CSV, IOUtils
 CONSTANTS Raw,        \* the raw token stream of one input
-          MaxCalls    \* bound on the number of parser calls in a behaviour
+          MaxCalls,   \* bound on the number of parser calls in a behaviour
+          AllowWith   \* the environment may start with-macro captures (line-structured streams only)
 
 VARIABLES gen,        \* number of raw tokens pulled so far
           cache, index,
@@ -68,21 +76,48 @@ Capture(g, open, first, last, any, allws) ==
                     ELSE [g |-> g + 1, tok |-> <<>>, push |-> <<>>, clear |-> FALSE, error |-> "SyntaxError"]         \* unmatched closer
                ELSE Capture(g + 1, open1, IF any THEN first ELSE t.b, t.e, TRUE, allws /\ t.ty = "WS")
           ELSE IF t.ty = "OP" /\ t.s = ")"
-               THEN IF any THEN [g |-> g + 1, tok |-> [ty |-> IF allws THEN "WS" ELSE "MACRO_PARAM", s |-> "", b |-> first, e |-> last], push |-> t, clear |-> TRUE, error |-> ""]
+               THEN IF any THEN [g |-> g + 1, tok |-> [ty |-> IF allws THEN "WS" ELSE "MACRO_PARAM", s |-> "", b |-> first, e |-> last, ln |-> t.ln], push |-> t, clear |-> TRUE, error |-> ""]
                     ELSE [g |-> g + 1, tok |-> t, push |-> <<>>, clear |-> TRUE, error |-> ""]                         \* empty: the closer itself
                ELSE IF t.ty = "OP" /\ t.s = ","
-               THEN IF any THEN [g |-> g + 1, tok |-> [ty |-> IF allws THEN "WS" ELSE "MACRO_PARAM", s |-> "", b |-> first, e |-> last], push |-> <<>>, clear |-> FALSE, error |-> ""]
+               THEN IF any THEN [g |-> g + 1, tok |-> [ty |-> IF allws THEN "WS" ELSE "MACRO_PARAM", s |-> "", b |-> first, e |-> last, ln |-> t.ln], push |-> <<>>, clear |-> FALSE, error |-> ""]
                     ELSE [g |-> g + 1, tok |-> t, push |-> <<>>, clear |-> FALSE, error |-> "", bare |-> TRUE]         \* delimiter with nothing before it
                ELSE Capture(g + 1, open1, IF any THEN first ELSE t.b, t.e, TRUE, allws /\ t.ty = "WS")
 
+\* ---- with-macro raw capture: consume_with_macro_params as one recursive scan ------------------
+\* a raw token also carries ln, its line number; a NEWLINE with s = "" is the implicit one the scanner adds at the end of input
+\* g: raw tokens consumed, idx: position in the loop, ind: the block form was recognised, n: indentation levels opened inside
+\* the block, ls: line numbers captured so far (the first token of each line puts its line in)
+\* (ls[i] = <<line number, column of the token that put the line in>>)
+RECURSIVE WCapture(_, _, _, _, _)
+WCapture(g, idx, ind, n, ls) ==
+  IF g >= Len(Raw) THEN [g |-> g, ls |-> ls, ind |-> ind, clear |-> FALSE, stop |-> 0, by |-> "eof"]     \* the generator is exhausted: the loop just ends
+  ELSE LET t == Raw[g + 1]
+           keep == IF \E i \in 1..Len(ls) : ls[i][1] = t.ln THEN ls ELSE Append(ls, <<t.ln, t.b>>)
+       IN IF idx = 0 /\ t.ty = "NEWLINE" THEN WCapture(g + 1, idx + 1, ind, n, ls)
+          ELSE IF t.ty = "INDENT"
+               THEN IF ~ind /\ idx = 1 THEN WCapture(g + 1, idx + 1, TRUE, n, ls)
+                    ELSE WCapture(g + 1, idx + 1, ind, n + 1, keep)
+          ELSE IF t.ty = "DEDENT"
+               THEN IF n > 0 THEN WCapture(g + 1, idx + 1, ind, n - 1, ls)
+                    ELSE [g |-> g + 1, ls |-> ls, ind |-> ind, clear |-> TRUE, stop |-> t.ln, by |-> "dedent"]
+          ELSE IF t.ty = "NEWLINE" /\ ~ind THEN [g |-> g + 1, ls |-> ls, ind |-> ind, clear |-> FALSE, stop |-> t.ln, by |-> "newline"]
+          ELSE IF t.ty = "NEWLINE" /\ t.s = "" THEN WCapture(g + 1, idx + 1, ind, n, ls)
+          ELSE WCapture(g + 1, idx + 1, ind, n, keep)
+
 \* ---- peek(): fill the cache until index < Len(cache) -------------------------------------
-RECURSIVE Fill(_, _, _, _, _)
-\* returns [g, c, st, cm, error]
-Fill(g, c, st, cm, steps) ==
-  IF index < Len(c) \/ steps = 0 THEN [g |-> g, c |-> c, st |-> st, cm |-> cm, error |-> ""]
+RECURSIVE Fill(_, _, _, _, _, _)
+\* returns [g, c, st, cm, wm, error]
+Fill(g, c, st, cm, wm, steps) ==
+  IF index < Len(c) \/ steps = 0 THEN [g |-> g, c |-> c, st |-> st, cm |-> cm, wm |-> wm, error |-> ""]
+  ELSE IF wm
+       THEN LET r == WCapture(g, 0, FALSE, 0, <<>>)
+                at == c[Len(c)].e                              \* the capture is placed at the end of the header's last token
+                tok == [ty |-> "MACRO_PARAM", s |-> "", b |-> at, e |-> at, ln |-> c[Len(c)].ln, ls |-> r.ls, ind |-> r.ind,
+                        hdr |-> c[Len(c)].ln, stop |-> r.stop, by |-> r.by]
+            IN Fill(r.g, Append(c, tok), st, cm, wm /\ ~r.clear, steps - 1)
   ELSE IF cm /\ ~withMacro
        THEN LET r == Capture(g, <<>>, 0, 0, FALSE, TRUE) IN
-            IF r.error # "" THEN [g |-> r.g, c |-> c, st |-> st, cm |-> cm, error |-> r.error]
+            IF r.error # "" THEN [g |-> r.g, c |-> c, st |-> st, cm |-> cm, wm |-> wm, error |-> r.error]
             ELSE LET st1 == IF r.push # <<>> THEN Append(st, r.push) ELSE st
                      cm1 == cm /\ ~r.clear
                      \* "if (not string) and self._stack: return self._stack.pop()": a bare delimiter is dropped in favour of
@@ -91,42 +126,53 @@ Fill(g, c, st, cm, steps) ==
                      tok == IF stale THEN st1[Len(st1)] ELSE r.tok
                      st2 == IF stale THEN SubSeq(st1, 1, Len(st1) - 1) ELSE st1
                      \* a whitespace-only argument comes back as WS and is filtered like any blank
-                 IN Fill(r.g, IF Blank(tok, c) THEN c ELSE Append(c, tok), st2, cm1, steps - 1)
+                 IN Fill(r.g, IF Blank(tok, c) THEN c ELSE Append(c, tok), st2, cm1, wm, steps - 1)
        ELSE IF st # <<>>
-            THEN LET t == st[Len(st)] IN Fill(g, IF Blank(t, c) THEN c ELSE Append(c, t), SubSeq(st, 1, Len(st) - 1), cm, steps - 1)
-            ELSE IF g >= Len(Raw) THEN [g |-> g, c |-> c, st |-> st, cm |-> cm, error |-> "SyntaxError"]
-                 ELSE LET t == Raw[g + 1] IN Fill(g + 1, IF Blank(t, c) THEN c ELSE Append(c, t), st, cm, steps - 1)
+            THEN LET t == st[Len(st)] IN Fill(g, IF Blank(t, c) THEN c ELSE Append(c, t), SubSeq(st, 1, Len(st) - 1), cm, wm, steps - 1)
+            ELSE IF g >= Len(Raw) THEN [g |-> g, c |-> c, st |-> st, cm |-> cm, wm |-> wm, error |-> "SyntaxError"]
+                 ELSE LET t == Raw[g + 1] IN Fill(g + 1, IF Blank(t, c) THEN c ELSE Append(c, t), st, cm, wm, steps - 1)
 
-Obs(op, arg) == [op |-> op, arg |-> arg, index |-> index', n |-> Len(cache'), call |-> callMacro', proc |-> procMacro',
+IsWithParam(t) == t.ty = "MACRO_PARAM" /\ "ls" \in DOMAIN t
+Obs(op, arg) == [op |-> op, arg |-> arg, index |-> index', n |-> Len(cache'), call |-> callMacro', proc |-> procMacro', with |-> withMacro',
+                 ls |-> IF err' = "" /\ op \in {"peek", "getnext"} /\ index < Len(cache') /\ IsWithParam(cache'[index + 1]) THEN cache'[index + 1].ls ELSE <<>>,
+                 oneline |-> (err' = "" /\ op \in {"peek", "getnext"} /\ index < Len(cache') /\ IsWithParam(cache'[index + 1]) /\ ~cache'[index + 1].ind),
                  stack |-> Len(stack'), err |-> err',
                  ty |-> IF err' = "" /\ op \in {"peek", "getnext"} /\ index < Len(cache') THEN cache'[index + 1].ty ELSE "",
                  b |-> IF err' = "" /\ op \in {"peek", "getnext"} /\ index < Len(cache') THEN cache'[index + 1].b ELSE 0,
                  e |-> IF err' = "" /\ op \in {"peek", "getnext"} /\ index < Len(cache') THEN cache'[index + 1].e ELSE 0]
 
 DoPeek(advance) ==
-  /\ err = "" /\ ~withMacro
-  /\ LET r == Fill(gen, cache, stack, callMacro, Len(Raw) + 2) IN
-     /\ gen' = r.g /\ cache' = r.c /\ stack' = r.st /\ callMacro' = r.cm
+  /\ err = ""
+  /\ LET r == Fill(gen, cache, stack, callMacro, withMacro, Len(Raw) + 2) IN
+     /\ gen' = r.g /\ cache' = r.c /\ stack' = r.st /\ callMacro' = r.cm /\ withMacro' = r.wm
      /\ err' = r.error
      /\ index' = IF r.error = "" /\ advance THEN index + 1 ELSE index
-  /\ UNCHANGED <<withMacro, procMacro>>
+  /\ UNCHANGED procMacro
 
 Peek    == DoPeek(FALSE) /\ hist' = Append(hist, Obs("peek", 0))
 GetNext == DoPeek(TRUE) /\ hist' = Append(hist, Obs("getnext", 0))
 Reset(m) == /\ err = "" /\ m \in 0..Len(cache) /\ index' = m
             /\ UNCHANGED <<gen, cache, callMacro, withMacro, procMacro, stack, err>>
             /\ hist' = Append(hist, Obs("reset", m))
-SetCall == /\ err = "" /\ ~callMacro /\ callMacro' = TRUE       \* handle_func_macro_start, possibly on an abandoned path
+SetCall == /\ err = "" /\ ~callMacro /\ ~withMacro /\ callMacro' = TRUE       \* handle_func_macro_start, possibly on an abandoned path
            /\ UNCHANGED <<gen, cache, index, withMacro, procMacro, stack, err>>
            /\ hist' = Append(hist, Obs("setcall", 0))
 SetProc(v) == /\ err = "" /\ procMacro # v /\ procMacro' = v    \* handle_proc_macro_start / proc_macro_arg
               /\ UNCHANGED <<gen, cache, index, callMacro, withMacro, stack, err>>
               /\ hist' = Append(hist, Obs(IF v THEN "setproc" ELSE "clearproc", 0))
 
+\* handle_with_macro_start (after the header has been read: the capture is placed at the end of the last token) / handle_with_macro_stmt
+SetWith == /\ AllowWith /\ err = "" /\ ~withMacro /\ ~callMacro /\ cache # <<>> /\ index = Len(cache) /\ withMacro' = TRUE
+           /\ UNCHANGED <<gen, cache, index, callMacro, procMacro, stack, err>>
+           /\ hist' = Append(hist, Obs("setwith", 0))
+ClearWith == /\ err = "" /\ withMacro /\ withMacro' = FALSE
+             /\ UNCHANGED <<gen, cache, index, callMacro, procMacro, stack, err>>
+             /\ hist' = Append(hist, Obs("clearwith", 0))
+
 Init == /\ gen = 0 /\ cache = <<>> /\ index = 0 /\ callMacro = FALSE /\ withMacro = FALSE /\ procMacro = FALSE
         /\ stack = <<>> /\ err = "" /\ hist = <<>>
 Next == /\ Len(hist) < MaxCalls
-        /\ (Peek \/ GetNext \/ (\E m \in 0..Len(cache) : Reset(m)) \/ SetCall \/ SetProc(TRUE) \/ SetProc(FALSE))
+        /\ (Peek \/ GetNext \/ (\E m \in 0..Len(cache) : Reset(m)) \/ SetCall \/ SetProc(TRUE) \/ SetProc(FALSE) \/ SetWith \/ ClearWith)
 
 \* ---- laws -----------------------------------------------------------------------------------
 IndexOK == index \in 0..Len(cache)
@@ -137,10 +183,21 @@ NoBlankDelivered == \A i \in 1..Len(cache) :
 ExhaustionIsError == err \in {"", "SyntaxError"}
 \* a delivered MACRO_PARAM covers whole raw tokens: it begins at the start of a raw token that follows a delimiter
 \* and ends at the end of a raw token that precedes one
-CaptureIsSlice == \A i \in 1..Len(cache) : cache[i].ty = "MACRO_PARAM" =>
+CaptureIsSlice == \A i \in 1..Len(cache) : (cache[i].ty = "MACRO_PARAM" /\ ~IsWithParam(cache[i])) =>
                      /\ cache[i].b < cache[i].e
                      /\ \E j \in 1..Len(Raw) : Raw[j].b = cache[i].b
                      /\ \E j \in 1..Len(Raw) : Raw[j].e = cache[i].e
+\* a with-capture holds a contiguous range of lines: block form = the lines after the header up to the line before the token
+\* that ended it (when the input ended first: up to the last line seen); one-line form = the header line only
+Range(a, b) == [i \in 1..(IF b >= a THEN b - a + 1 ELSE 0) |-> a + i - 1]
+WithCaptureIsBlock == \A i \in 1..Len(cache) : IsWithParam(cache[i]) =>
+                         LET t == cache[i] IN
+                         LET lns == [k \in 1..Len(t.ls) |-> t.ls[k][1]] IN
+                         CASE t.by = "dedent"  -> lns = Range(t.stop - Len(lns), t.stop - 1)       \* contiguous, ending right before the line of the DEDENT
+                           [] t.by = "newline" -> lns = <<>> \/ lns = Range(t.stop - Len(lns) + 1, t.stop)   \* contiguous, up to the line its NEWLINE is on
+                           [] OTHER -> TRUE
+WithFlagClearedAtDedent == [][(Len(cache') > Len(cache) /\ IsWithParam(cache'[Len(cache')]) /\ cache'[Len(cache')].ind /\ cache'[Len(cache')].stop > 0)
+                                => ~withMacro']_vars
 CacheAppendOnly == [][\A i \in 1..Len(cache) : i <= Len(cache') /\ cache'[i] = cache[i]]_vars
 Spec == Init /\ [][Next]_vars
 
